@@ -87,6 +87,71 @@ def dying_sha(seed, after):
     return Dying(seed)
 
 
+# ---- results kept by the caller: what a call returned must not change when LATER calls are made (a result that aliases a
+# module-level scratch object, a cached table, another result) ----
+def deep_same(a, b):
+    if isinstance(a, np.ndarray) or isinstance(b, np.ndarray):
+        a_, b_ = np.asarray(a), np.asarray(b)
+        if a_.shape != b_.shape:
+            return False
+        if a_.dtype == object or b_.dtype == object:
+            return all(deep_same(x, y) for x, y in zip(a_.ravel().tolist(), b_.ravel().tolist()))
+        try:
+            return bool(np.array_equal(a_, b_, equal_nan=True))
+        except TypeError:
+            return bool(np.array_equal(a_, b_))
+    if isinstance(a, dict) and isinstance(b, dict):
+        return a.keys() == b.keys() and all(deep_same(a[k], b[k]) for k in a)
+    if isinstance(a, (list, tuple)) and isinstance(b, (list, tuple)):
+        return len(a) == len(b) and all(deep_same(x, y) for x, y in zip(a, b))
+    try:
+        if a != a and b != b:
+            return True
+    except Exception:
+        pass
+    try:
+        return bool(a == b)
+    except Exception:
+        return a is b
+
+
+def recording(fn, store, keep=6):
+    """wrap a library function: every returned object is kept together with a deep copy taken at return time"""
+    import copy, functools
+    @functools.wraps(fn)
+    def w(*a, **k):
+        r = fn(*a, **k)
+        try:
+            store.append((getattr(fn, "__name__", "?"), r, copy.deepcopy(r)))
+        except Exception:
+            pass
+        del store[:-keep]
+        return r
+    w._recording = True
+    return w
+
+
+class RecordingModule:
+    """a view of a library module whose listed functions are wrapped by [recording]"""
+    def __init__(self, mod, store, names):
+        self._m, self._s, self._n, self._w = mod, store, set(names), {}
+    def __getattr__(self, name):
+        v = getattr(self._m, name)
+        if name in self._n and callable(v):
+            if name not in self._w or self._w[name].__wrapped__ is not v:
+                self._w[name] = recording(v, self._s)
+            return self._w[name]
+        return v
+
+
+def retained_changed(store):
+    """description of the first kept result that no longer equals its value at return time, else None"""
+    for name, r, snap in store:
+        if not deep_same(r, snap):
+            return f"a result returned earlier by {name} reads {str(r)[:120]} now, it was {str(snap)[:120]} when it was returned"
+    return None
+
+
 def fail_first(calls):
     """FAILURE PATHS: before a case, make calls that the library must reject or that fail inside a user callable (every one of
     them raises on the unchanged tree).  A rejected or aborted call must leave nothing behind -- no module-level switch, no
